@@ -178,6 +178,14 @@ def oracle_copy(case):
     host.add_state(BasicState('slot'), 'host')
     host.add_state(BasicState('slot2'), 'host')
     pre = case['prefix']
+    # copy_from_statechart renames the guest's states one at a time inside a copy of the guest
+    # (documented in its source): a new name must not be the current name of another guest
+    # state.  Prefixes that would produce such a name are replaced.
+    gnames = set(x['name'] for x in spec['states'])
+    for cand in (pre, 'g_', 'zz', 'q#', 'copy of '):
+        if not any((cand + n) in gnames or (cand + '2' + n) in gnames for n in gnames):
+            pre = cand
+            break
     labels = {'copy cases': 1}
     guest_before = from_statechart(guest)
     try:
